@@ -15,11 +15,12 @@ from harness import common
 from harness.impl import magnet as mg
 
 RULE = ('hash/topic strings = structured perturbations of valid 40-hex / 32-base32 strings (suffix, prefix, '
-        'urn:btih: variants, length +-1, one substituted character incl. the characters re.IGNORECASE folds, '
+        'urn:btih: variants, length +-1, one substituted character incl. the non-ASCII characters re.IGNORECASE alone would fold, '
         'other alphabet, whitespace) + junk, x entry point (constructor on a fresh object, .xt= and .infohash= '
         'on objects initialised in each of the four notations) + histories of 2-6 assignments; xl values of '
-        'every Python type int() knows; URL lists with invalid items, spaces, duplicates; get_info against a '
-        'loopback HTTP server. non-trivial = the string is valid or derived from a valid one by one '
+        'every Python type int() knows; URL lists with invalid items, spaces (also leading: valid only before ' '->'+'), '
+        'duplicates; get_info against a loopback HTTP server; one-object histories get_info -> torrent() -> re-assignments '
+        '-> torrent() -> get_info -> torrent() with every stage judged, also after an adoption. non-trivial = the string is valid or derived from a valid one by one '
         'perturbation (not junk); distinct = distinct (entry, prior, string) / scenario')
 
 PRIORS = {'hex-lower': 'cd' * 20, 'hex-upper': 'CD' * 20,
@@ -28,42 +29,9 @@ PRIORS = {'hex-lower': 'cd' * 20, 'hex-upper': 'CD' * 20,
 
 
 # ------------------------------------------------------------------ known findings
-def _defold(s):
-    return ''.join(mg.FOLD.get(c, c) for c in s)
-
-
-def m_ignorecase_fold(case, observed, finding):
-    """D14f: the value contains one of U+0130/U+0131/U+017F/U+212A, would be valid with that character
-    replaced by the ASCII letter it folds to, and the implementation accepted it."""
-    v = case.get('v')
-    if not isinstance(v, str) or not any(c in mg.FOLD for c in v):
-        return False
-    d = _defold(v)
-    import re
-    valid = re.fullmatch(r'(?a)(urn:btih:)?([0-9a-fA-F]{40}|[a-zA-Z2-7]{32})', d) is not None
-    if case.get('entry') == 'infohash':
-        valid = re.fullmatch(r'(?a)([0-9a-fA-F]{40}|[a-zA-Z2-7]{32})', d) is not None
-    return bool(valid and isinstance(observed, dict) and observed.get('outcome') == 'ok')
-
-
-def m_url_recoerced(case, observed, finding):
-    """D14g: tr/ws assignment whose items are all valid for is_url, at least one of them only before its
-    spaces are replaced by '+'; URLError is raised and the list was modified."""
-    return bool(case.get('kind') == 'urls' and case.get('field') in ('tr', 'ws') and case.get('unstable')
-                and isinstance(observed, dict) and observed.get('outcome') == 'url')
-
-
-def m_stale_info(case, observed, finding):
-    """D14h: get_info() adopted metadata (hash A), then a valid hash denoting a *different* number was assigned;
-    everything up to there went as specified, and torrent() still reports A."""
-    return bool(case.get('kind') == 'getinfo-history' and isinstance(observed, dict)
-                and observed.get('stage') == 'torrent() after re-assignment'
-                and observed.get('adopted_before') is not None
-                and observed.get('torrent_infohash') == observed['adopted_before']
-                and observed.get('holds_hex') not in (None, observed['adopted_before']))
-
-
-MATCHERS = {'ignorecase_fold': m_ignorecase_fold, 'url_recoerced': m_url_recoerced, 'stale_info': m_stale_info}
+# none open: D14a-e and D14f (re.ASCII), D14g (URL validates the stored form), D14h (_set_infohash drops _info) are
+# repaired in /repo; their witnesses run as regression cases (corpus/C14, fixed cases of the streams)
+MATCHERS = {}
 
 
 # ------------------------------------------------------------------ real code: hash assignments
@@ -160,15 +128,12 @@ def eval_hash(ctx, drv, cases):
                            'error': None if spec['accept'] else 'MagnetError'},
                           o, finding_matchers=MATCHERS)
             continue
-        if not r['hyp']:
-            ctx.dist['outside-hyp-but-meets-spec'] += 1
-            continue
-        # --- model against the specification (proved: C14_accept_iff_*, C14_reject_keeps, C14_torrent_hash)
+        # --- model against the specification (proved for all strings: C14_accept_iff_*, C14_reject_keeps, C14_torrent_hash)
         m_b16 = model['base16']
         m_ok = ((model['err'] is None) == spec['accept'] and mg.uncps(model['state']) == s_state
                 and (not spec['accept'] or (m_b16 and mg.uncps(m_b16.get('ok')) == s_b16)))
         if not m_ok:
-            ctx.machinery_error('model outside spec under NoFold although C14_accept_iff_* are proved', case)
+            ctx.machinery_error('model outside spec although C14_accept_iff_* are proved', case)
             continue
         # --- implementation against the model
         i_err = None if o['outcome'] == 'ok' else o['outcome']
@@ -246,9 +211,10 @@ def _run_use_chunk(cases):
         for op in c['ops']:
             if op[0] == 'torrent':
                 try:
-                    obs.append({'base16': m.torrent().infohash})
+                    t = m.torrent()
+                    obs.append({'base16': t.infohash, 'withInfo': 'pieces' in t.metainfo['info']})
                 except BaseException as e:  # noqa
-                    obs.append({'base16': 'raised:' + type(e).__name__})
+                    obs.append({'base16': 'raised:' + type(e).__name__, 'withInfo': False})
             else:
                 try:
                     setattr(m, op[0], op[1])
@@ -283,7 +249,7 @@ def use_cases(ctx, scale=1.0):
                 cases.append({'prior': PRIORS[pk], 'ops': [['torrent'], [entry, v], ['torrent']]})
                 cases.append({'prior': PRIORS[pk], 'ops': [['torrent'], [entry, v + 'z'], ['torrent'], [entry, v], ['torrent']]})
                 cases.append({'prior': PRIORS[pk], 'ops': [[entry, v], ['torrent'], [entry, 'urn:btih:' + h1], ['torrent']]})
-    pool = [x for x in mg.fixed_hash_strings() if not any(ch in mg.FOLD for ch in x[1])]
+    pool = mg.fixed_hash_strings()
     for _ in range(int(ctx.n(2500, 40000) * scale)):
         ops = []
         for _ in range(rng.randint(3, 8)):
@@ -295,8 +261,8 @@ def use_cases(ctx, scale=1.0):
                 ops.append([e, _valid_in(rng, mg.rand_hex40(rng), e)])
             else:
                 label, v = rng.choice(pool) if rng.random() < 0.5 else mg.hash_strings(rng, 1)[0]
-                if any(ch in mg.FOLD for ch in v) or mg.has_surrogate(v):
-                    v = v.encode('ascii', 'replace').decode()
+                if mg.has_surrogate(v):
+                    v = v.encode('utf-8', 'replace').decode()
                 ops.append([rng.choice(['xt', 'infohash']), v])
         ops.append(['torrent'])
         cases.append({'prior': _valid_in(rng, mg.rand_hex40(rng), 'infohash'), 'ops': ops})
@@ -308,7 +274,9 @@ def _norm_obs(o):
         return {'err': o['err']}
     if 'base16' in o:
         b = o['base16']
-        return {'base16': mg.uncps(b['ok']) if 'ok' in b else 'raised:' + str(b.get('err'))}
+        return {'base16': mg.uncps(b['ok']) if 'ok' in b else 'raised:' + str(b.get('err')), 'withInfo': o['withInfo']}
+    if 'fetchErr' in o:
+        return {'fetch': ('raised:' + o['fetchErr']) if o['fetchErr'] else o['result'], 'consulted': o['consulted']}
     return {'unset': True}
 
 
@@ -388,12 +356,22 @@ def gih_scenarios(ctx, scale=1.0):
                     reassign=[[entry, 'invalid', 'ab' * 20 + 'z'], [entry, 'good', n2, False]], p2=['good'], tq=[True, True])
                 # the old hash's torrent must be refused after the re-assignment
                 add(first='good', n1=n1, sources=[kind], p1=['garbage'], reassign=[[entry, 'bad', n2, False]], p2=['good'])
-                # adopted in phase 1, then another hash assigned: torrent() must follow the magnet (D14h)
+                # adopted in phase 1, then another hash assigned: torrent() must follow the magnet (D14h, repaired) ...
                 add(first='good', n1=n1, sources=[kind], p1=['good'], reassign=[[entry, 'bad', n2, False]], p2=['notfound'],
                     tq=[True, True])
-                # same number in another notation: adopted metadata stays valid
+                # ... the old hash's torrent must now be refused, the new hash's torrent adopted
+                add(first='good', n1=n1, sources=[kind], p1=['good'], reassign=[[entry, 'bad', n2, entry == 'xt']], p2=['good'],
+                    tq=[False, False])
+                add(first='good', n1=n1, sources=[kind], p1=['good'], reassign=[[entry, 'bad', n2, False]], p2=['bad'],
+                    tq=[False, True])
+                # same number in another notation: adopted metadata stays valid (the code forgets and re-fetches it)
                 add(first='good', n1=n1, sources=[kind], p1=['good'], reassign=[[entry, 'good', n2, False]], p2=['good'],
                     tq=[False, True])
+                # the very same string re-assigned / only a rejected assignment: metadata is kept
+                add(first='good', n1=n1, sources=[kind], p1=['good'], reassign=[[entry, 'good', n1, False]],
+                    p2=[rng.choice(['notfound', 'garbage', 'good', 'bad'])], tq=[True, True])
+                add(first='good', n1=n1, sources=[kind], p1=['good'], reassign=[[entry, 'invalid', 'urn:btih:' + 'ab' * 20 + 'z']],
+                    p2=[rng.choice(['notfound', 'good'])], tq=[False, True])
     for _ in range(int(ctx.n(120, 1500) * scale)):
         n = rng.randint(1, 4)
         kinds = ['xs', 'as_'] + ['ws'] * 2 + ['tr'] * 2
@@ -492,20 +470,97 @@ def _run_gih_chunk(scs):
     return out
 
 
-def _gi_expect(payloads, matches, validate):
-    """the property, read directly: sources in order; the first readable torrent is adopted iff it denotes the magnet's
-    hash (without validation: adopted as it is); a readable torrent with another hash raises MetainfoError"""
-    exp, consulted, adopted = False, 0, None
+def _gi_expect(payloads, matches, validate, held=None):
+    """the property, read directly: sources in order; a failed download / unreadable data is skipped; the first readable
+    torrent is adopted iff it denotes the magnet's hash (without validation: adopted as it is); a readable torrent with
+    another hash raises MetainfoError; the search is over as soon as the magnet holds metadata (`held` = payload it
+    already holds).  Returns (result, sources consulted, payload held afterwards)."""
+    consulted = 0
     for p, match in zip(payloads, matches):
         consulted += 1
         if match is None:
+            if held:
+                return True, consulted, held
             continue
         if validate and not match:
-            exp = 'raised:metainfo'
-            break
-        exp, adopted = True, p
-        break
-    return exp, consulted, adopted
+            return 'raised:metainfo', consulted, held
+        return True, consulted, p
+    return bool(held), consulted, held
+
+
+def _gih_stages(res, judged_own, judged_ops, g1, g2, drop_rule):
+    """expected observation of every stage of one scenario, from the property.  `drop_rule` says when adopted metadata
+    is forgotten by an accepted assignment: 'string' = the stored string changes (what the code does), 'number' = the
+    denoted hash changes (what the property needs at least), 'accepted' = always (the most the property allows: a
+    rejected assignment must leave the object as it was).  Returns (stages, plan); a stage is
+    (name, expected, observed, ok)."""
+    s, o = res['scenario'], res['obs']
+    served_hash = {'good': res['ih'], 'bad': res['ih_bad']}
+    validate = s['validate']
+    own_hex = mg.uncps(judged_own['base16'])
+    cur, cur_hex = res['own'], own_hex
+
+    def paths(n, hx):
+        enc = urllib.parse.quote_from_bytes(bytes.fromhex(hx))
+        return ['/file?info_hash=' + enc if kind == 'tr' else f'/s{k}/t.torrent' for k, kind in enumerate(s['sources'][:n])]
+
+    def eq(name, exp, got):
+        return (name, exp, got, all(got.get(k) == v for k, v in exp.items()))
+
+    def tor(held, hx):
+        return ({'torrent_infohash': served_hash[held], 'has_pieces': True} if held else
+                {'torrent_infohash': hx, 'has_pieces': False})
+    stages = []
+    exp1, n1, held = _gi_expect(s['p1'], g1['spec']['matches'], validate)
+    stages.append(eq('get_info() before the re-assignment', {'result': exp1, 'seen': paths(n1, own_hex)},
+                     {k: o['p1'][k] for k in ('result', 'seen')}))
+    if 't1' in o:
+        stages.append(eq('torrent() before the re-assignment', tor(held, own_hex), o['t1']))
+    held1 = held
+    exp_errs = []
+    for j in judged_ops:
+        exp_errs.append(None if j['accept'] else 'magnet')
+        if j['accept']:
+            new, new_hex = mg.uncps(j['state']), mg.uncps(j['base16'])
+            if {'string': new != cur, 'number': new_hex != cur_hex, 'accepted': True}[drop_rule]:
+                held = None
+            cur, cur_hex = new, new_hex
+    stages.append(eq('assignments', {'errs': exp_errs, 'state': cur}, {'errs': o['errs'], 'state': o['state']}))
+    if 'tmid' in o:
+        name = ('torrent() after re-assignment' if cur_hex != own_hex else
+                'torrent() after assignments that left the hash unchanged')
+        got = dict(o['tmid'])
+        if held1 and cur_hex != own_hex:
+            got.update(adopted_before=served_hash[held1], holds_hex=cur_hex)
+        stages.append(eq(name, tor(held, cur_hex), got))
+    got2 = {k: o['p2'][k] for k in ('result', 'seen')}
+    if not held:
+        exp2, n2, held2 = _gi_expect(s['p2'], g2['spec']['matches'], validate)
+        stages.append(eq('get_info() after the re-assignment', {'result': exp2, 'seen': paths(n2, cur_hex)}, got2))
+        stages.append(eq('torrent() at the end', tor(held2, cur_hex), o['t2']))
+    else:
+        # the magnet still holds metadata that denotes its hash.  The property fixes: requests (if any) are made for
+        # the hash held now; a torrent with another hash is never adopted; the result is True, or MetainfoError if
+        # (validating) a non-matching torrent was served; torrent() keeps reporting the magnet's hash.  (Exactly how
+        # many sources are consulted is the code's choice: compared with the model below.)
+        allp = paths(len(s['sources']), cur_hex)
+        mism = any(m is False for m in g2['spec']['matches'])
+        ok = (got2['seen'] == allp[:len(got2['seen'])]
+              and (got2['result'] is True or (validate and mism and got2['result'] == 'raised:metainfo')))
+        stages.append(('get_info() on a magnet that still holds metadata for its hash',
+                       {'result': 'True' + (' | raised:metainfo' if validate and mism else ''), 'seen': 'a prefix of %r' % (allp,)},
+                       got2, ok))
+        if validate:
+            stages.append(eq('torrent() at the end', {'torrent_infohash': cur_hex, 'has_pieces': True}, o['t2']))
+        else:
+            okt = o['t2'].get('has_pieces') is True and o['t2'].get('torrent_infohash') in served_hash.values()
+            stages.append(('torrent() at the end', {'torrent_infohash': 'of a served torrent', 'has_pieces': True}, o['t2'], okt))
+    return stages, {'own_hex': own_hex, 'cur': cur, 'cur_hex': cur_hex, 'adopted_phase1': held1}
+
+
+def _served(res, payloads):
+    return [{'kind': 'torrent', 'infohash': mg.cps(res['ih'] if p == 'good' else res['ih_bad']), 'nonEmpty': True}
+            if p in ('good', 'bad') else {'kind': 'unreadable' if p == 'garbage' else 'connError'} for p in payloads]
 
 
 def eval_gih(ctx, drv, scs):
@@ -523,103 +578,97 @@ def eval_gih(ctx, drv, scs):
     judged = {}
     for (ri, k), r in zip(hidx, drv.run(hreq)):
         judged[(ri, k)] = r['spec']
-    plans = []
-    greq = []
+    greq, ureq = [], []
     for ri, res in enumerate(results):
         s, o = res['scenario'], res['obs']
-        cur, cur_hex = res['own'], mg.uncps(judged[(ri, None)]['base16'])
-        own_hex = cur_hex
-        exp_errs = []
-        for k, (e, v) in enumerate(o['ops']):
-            j = judged[(ri, k)]
-            exp_errs.append(None if j['accept'] else 'magnet')
-            if j['accept']:
-                cur, cur_hex = mg.uncps(j['state']), mg.uncps(j['base16'])
-        plans.append({'own_hex': own_hex, 'cur': cur, 'cur_hex': cur_hex, 'exp_errs': exp_errs})
+        cur = res['own']
+        for k in range(len(o['ops'])):
+            if judged[(ri, k)]['accept']:
+                cur = mg.uncps(judged[(ri, k)]['state'])
         kw = res['kw']
         tr = []
         for u in kw['tr']:
             p = urllib.parse.urlparse(u)
             tr.append([mg.cps(p.scheme), mg.cps(p.netloc)])
         for own, payloads in ((res['own'], s['p1']), (cur, s['p2'])):
-            served = [{'kind': 'torrent', 'infohash': mg.cps(res['ih'] if p == 'good' else res['ih_bad']), 'nonEmpty': True}
-                      if p in ('good', 'bad') else {'kind': 'unreadable' if p == 'garbage' else 'connError'} for p in payloads]
             greq.append({'op': 'c14.getinfo', 'ih': mg.cps(own), 'xs': mg.ocps(kw.get('xs')), 'as_': mg.ocps(kw.get('as_')),
-                         'ws': [mg.cps(u) for u in kw['ws']], 'tr': tr, 'validate': s['validate'], 'served': served})
+                         'ws': [mg.cps(u) for u in kw['ws']], 'tr': tr, 'validate': s['validate'], 'served': _served(res, payloads)})
+        # the whole history on one object for the model (runUse) and the Lean specification (specUse)
+        ops = [{'entry': 'getinfo', 'validate': s['validate'], 'served': _served(res, s['p1'])}]
+        if 't1' in o:
+            ops.append({'entry': 'torrent'})
+        ops += [{'entry': e, 'v': mg.cps(v)} for e, v in o['ops']]
+        if 'tmid' in o:
+            ops.append({'entry': 'torrent'})
+        ops += [{'entry': 'getinfo', 'validate': s['validate'], 'served': _served(res, s['p2'])}, {'entry': 'torrent'}]
+        ureq.append({'op': 'c14.use', 'prior': mg.cps(res['own']), 'ops': ops})
     grep = drv.run(greq)
-    for ri, (res, plan) in enumerate(zip(results, plans)):
+    urep = drv.run(ureq)
+    for ri, res in enumerate(results):
         s, o = res['scenario'], res['obs']
-        g1, g2 = grep[2 * ri], grep[2 * ri + 1]
+        g1, g2, u = grep[2 * ri], grep[2 * ri + 1], urep[ri]
         case = dict(s, kind='getinfo-history', own=res['own'], assignments=o['ops'])
         ctx.case(key=('gih', s['first'], s['n1'], tuple(s['sources']), tuple(s['p1']), tuple(map(tuple, s['reassign'])),
                       tuple(s['p2']), s['validate'], tuple(s['tq'])), nontrivial=True,
                  kind='getinfo-history/' + '+'.join(s['sources']))
-        served_hash = {'good': res['ih'], 'bad': res['ih_bad']}
-
-        def paths(n, hx):
-            enc = urllib.parse.quote_from_bytes(bytes.fromhex(hx))
-            return ['/file?info_hash=' + enc if kind == 'tr' else f'/s{k}/t.torrent' for k, kind in enumerate(s['sources'][:n])]
-        exp1, n1, ad1 = _gi_expect(s['p1'], g1['spec']['matches'], s['validate'])
-        stages = [('get_info() before the re-assignment', {'result': exp1, 'seen': paths(n1, plan['own_hex'])},
-                   {k: o['p1'][k] for k in ('result', 'seen')})]
-        if 't1' in o:
-            stages.append(('torrent() before the re-assignment',
-                           {'torrent_infohash': served_hash[ad1], 'has_pieces': True} if ad1 else
-                           {'torrent_infohash': plan['own_hex'], 'has_pieces': False}, o['t1']))
-        stages.append(('assignments', {'errs': plan['exp_errs'], 'state': plan['cur']}, {'errs': o['errs'], 'state': o['state']}))
-        if ad1:
-            # metadata adopted for hash A; the magnet now holds plan['cur']: torrent() must report the hash the
-            # magnet holds (identical to A when only the notation changed)
-            if 'tmid' in o and plan['cur_hex'] == plan['own_hex']:
-                # the number the magnet denotes did not change (rejected assignments / another notation only)
-                stages.append(('torrent() after assignments that left the hash unchanged',
-                               {'torrent_infohash': served_hash[ad1], 'has_pieces': True}, o['tmid']))
-            elif 'tmid' in o:
-                stages.append(('torrent() after re-assignment', {'torrent_infohash': plan['cur_hex']},
-                               {'torrent_infohash': o['tmid'].get('torrent_infohash'), 'adopted_before': served_hash[ad1],
-                                'holds_hex': plan['cur_hex']}))
-            ctx.dist['getinfo-history:adopted-in-phase-1(phase 2 not judged)'] += 1
-        else:
-            if 'tmid' in o:
-                stages.append(('torrent() after re-assignment (nothing adopted so far)',
-                               {'torrent_infohash': plan['cur_hex'], 'has_pieces': False}, o['tmid']))
-            exp2, n2, ad2 = _gi_expect(s['p2'], g2['spec']['matches'], s['validate'])
-            stages.append(('get_info() after the re-assignment', {'result': exp2, 'seen': paths(n2, plan['cur_hex'])},
-                           {k: o['p2'][k] for k in ('result', 'seen')}))
-            stages.append(('torrent() at the end',
-                           {'torrent_infohash': served_hash[ad2], 'has_pieces': True} if ad2 else
-                           {'torrent_infohash': plan['cur_hex'], 'has_pieces': False}, o['t2']))
+        jops = [judged[(ri, k)] for k in range(len(o['ops']))]
+        stages, plan = _gih_stages(res, judged[(ri, None)], jops, g1, g2, 'string')
+        if plan['adopted_phase1']:
+            ctx.dist['getinfo-history:adopted-in-phase-1(all stages judged)'] += 1
         if ctx.dist['sampled-gih'] < 1:
             ctx.dist['sampled-gih'] += 1
-            ctx.sample({'case': case, 'stages': [[a, b] for a, b, _ in stages]}, limit=8)
-        bad = next(((name, e, got) for name, e, got in stages
-                    if any(got.get(k) != v for k, v in e.items())), None)
+            ctx.sample({'case': case, 'stages': [[a, b] for a, b, _, _ in stages]}, limit=8)
+        bad = next(((name, e, got) for name, e, got, ok in stages if not ok), None)
+        if bad:
+            # keeping adopted metadata when the same hash is assigned in another notation, or forgetting it when the
+            # same string is assigned again, would serve the property as well: judge by those readings before
+            # reporting (the exact rule of the code is compared with the model below)
+            for rule in ('number', 'accepted'):
+                alt, _ = _gih_stages(res, judged[(ri, None)], jops, g1, g2, rule)
+                if all(ok for _, _, _, ok in alt):
+                    ctx.dist['getinfo-history:metadata forgotten by rule "%s" (allowed by the property)' % rule] += 1
+                    bad = None
+                    break
         if bad:
             name, e, got = bad
             ctx.violation('one magnet object, get_info() / hash re-assignment / get_info(): at stage "%s" the object does not '
                           'behave like a magnet holding the hash assigned last (request for exactly its 20 bytes, adopt iff '
-                          'the fetched infohash denotes it, torrent() reports it)' % name,
+                          'the fetched infohash denotes it, torrent() reports it, metadata of another hash is forgotten)' % name,
                           case, dict(e, stage=name), dict(got, stage=name), finding_matchers=MATCHERS)
             continue
-        # --- model of get_info (run on the hash held in each phase) against specification and implementation
-        for g, ph, (exp, n) in ((g1, o['p1'], (exp1, n1)),) + (() if ad1 else ((g2, o['p2'], (exp2, n2)),)):
+        # --- the code-shaped model (runUse) against the Lean specification (specUse, C14_convert_history) and the
+        #     implementation, step by step over the whole history
+        i_obs = [{'fetch': o['p1']['result'], 'consulted': len(o['p1']['seen'])}]
+        if 't1' in o:
+            i_obs.append({'base16': o['t1'].get('torrent_infohash'), 'withInfo': o['t1'].get('has_pieces', False)})
+        i_obs += [{'err': e} for e in o['errs']]
+        if 'tmid' in o:
+            i_obs.append({'base16': o['tmid'].get('torrent_infohash'), 'withInfo': o['tmid'].get('has_pieces', False)})
+        i_obs.append({'fetch': o['p2']['result'], 'consulted': len(o['p2']['seen'])})
+        i_obs.append({'base16': o['t2'].get('torrent_infohash'), 'withInfo': o['t2'].get('has_pieces', False)})
+        m_obs = [_norm_obs(x) for x in u['model']['obs']]
+        if u['hyp']:
+            s_obs = [_norm_obs(x) for x in u['spec']['obs']]
+            if m_obs != s_obs or u['model']['full'] != u['spec']['full']:
+                ctx.machinery_error('get_info-history model outside spec although C14_convert_history is proved',
+                                    {'case': case, 'model': m_obs, 'spec': s_obs})
+                continue
+        if m_obs != i_obs:
+            ctx.corr_break('c14.use', case, m_obs, i_obs)
+            continue
+        # --- the requests the model's torrent_urls predicts for each phase (C14_tracker_request)
+        for g, ph in ((g1, o['p1']), (g2, o['p2'])):
             if not g['hyp']:
                 continue
-            mres = g['model']['result']
-            mk = {'adopted': True, 'nothing': False}.get(mres['kind'], 'raised:' + str(mres.get('err')))
-            if mk != exp or mres['consulted'] != n:
-                ctx.machinery_error('get_info model outside spec although C14_adopt_iff/C14_adopt_sound are proved',
-                                    {'case': case, 'model': mres, 'exp': exp})
-                break
             murls = g['model']['urls'].get('ok')
             mpaths = None
             if murls is not None:
                 mpaths = []
-                for u in [mg.uncps(u) for u in murls][:n]:
-                    p = urllib.parse.urlsplit(u)
+                for x in [mg.uncps(x) for x in murls][:len(ph['seen'])]:
+                    p = urllib.parse.urlsplit(x)
                     mpaths.append(p.path + ('?' + p.query if p.query else ''))
             if mpaths != ph['seen']:
-                ctx.corr_break('c14.getinfo', case, {'requests': mpaths, 'result': mres}, ph)
+                ctx.corr_break('c14.getinfo', case, {'requests': mpaths}, ph)
                 break
 
 
@@ -710,7 +759,7 @@ def eval_xl(ctx, drv, scale=1.0):
 
 
 # ------------------------------------------------------------------ URL fields
-URL_POOL = ['http://good/1', ' http://a/lead',  # D14g witness material first
+URL_POOL = ['http://good/1', ' http://a/lead',  # D14g witness material first (repaired: must be rejected atomically)
             'http://a/b', 'http://a/b c', 'http://a/b+c', 'https://x.y:80/z', 'udp://t:6969/announce',
             'http://[::1]:80/x', 'ftp://h/', 'http://a:65535/', 'http://a:65536/', 'http://a:port/', 'http://a:-1/',
             'a/b', '', 'http://', 'http:/a/b', '//a/b', 'foo', 'http://a b/c', ' http://a/b', 'http://a/b ',
@@ -733,16 +782,22 @@ def _urls_one(torf, field, prior, vs):
     return {'outcome': outcome, 'state': (None if cur is None else str(cur)) if single else [str(u) for u in cur]}
 
 
-def eval_urls(ctx, drv, scale=1.0):
-    torf = common.import_torf()
+URL_FIXED = [('tr', ['http://old/0'], ['http://good/1', ' http://a/lead']),          # witness of D14g (repaired)
+             ('ws', ['http://old/0'], [' http://a/lead']), ('xs', 'http://old/0', [' http://a/lead']),   # D13e
+             ('as_', None, [' http://a/lead']), ('tr', [], [' http://a/lead', 'http://good/1']),
+             ('tr', ['http://old/0'], ['http://a/b c', 'http://a/b+c', 'http://a/b c', 'http://good/1']),
+             ('ws', ['http://old/0', 'http://old/1'], ['http://good/1', 'http://a b/c']),
+             ('tr', ['http://old/0'], []), ('xs', 'http://old/0', ['http://a/b c'])]
+
+
+def url_cases(ctx, scale=1.0):
     from torf import _utils
     rng = ctx.rng
-    cases = [('tr', ['http://old/0'], ['http://good/1', ' http://a/lead']),          # witness of D14g
-             ('ws', ['http://old/0'], [' http://a/lead']), ('xs', 'http://old/0', [' http://a/lead'])]
+    cases = list(URL_FIXED)
+    good = [u for u in URL_POOL if _utils.is_url(u)]
+    stable = [u for u in good if _utils.is_url(u.replace(' ', '+'))]
     for _ in range(int(ctx.n(1500, 60000) * scale)):
         field = rng.choice(['tr', 'ws', 'xs', 'as_'])
-        good = [u for u in URL_POOL if _utils.is_url(u)]
-        stable = [u for u in good if _utils.is_url(u.replace(' ', '+'))]
         if field in ('xs', 'as_'):
             prior = rng.choice([None, rng.choice(stable)])
             vs = [rng.choice(URL_POOL)]
@@ -750,6 +805,12 @@ def eval_urls(ctx, drv, scale=1.0):
             prior = rng.sample(stable, rng.randint(0, 3))
             vs = [rng.choice(URL_POOL if rng.random() < 0.35 else good) for _ in range(rng.randint(0, 5))]
         cases.append((field, prior, vs))
+    return cases
+
+
+def eval_urls(ctx, drv, cases):
+    torf = common.import_torf()
+    from torf import _utils
     reqs = []
     for field, prior, vs in cases:
         single = field in ('xs', 'as_')
@@ -761,15 +822,15 @@ def eval_urls(ctx, drv, scale=1.0):
             if p not in sp:
                 sp.append(p)
         reqs.append({'op': 'c14.urls', 'prior': [mg.cps(p) for p in sp], 'vs': [mg.cps(v) for v in vs],
-                     'valid': [mg.cps(v) for v in set(vs) | {v.replace(' ', '+') for v in vs} if _utils.is_url(v)],
-                     'unstable': [v for v in vs if _utils.is_url(v) and not _utils.is_url(v.replace(' ', '+'))]})
+                     'valid': [mg.cps(v) for v in set(vs) | {v.replace(' ', '+') for v in vs} if _utils.is_url(v)]})
     replies = drv.run(reqs)
     for (field, prior, vs), q, r in zip(cases, reqs, replies):
         single = field in ('xs', 'as_')
         o = _urls_one(torf, field, prior, vs)
         case = {'kind': 'urls', 'field': field, 'prior': prior, 'vs': vs}
         ctx.case(key=('url', field, str(prior), tuple(vs)), nontrivial=True, kind=f'urls/{field}')
-        acc = r['spec']['accept']
+        # the property, read directly: a URL is acceptable iff it is valid and what is stored for it (' ' -> '+') is valid
+        acc = all(_utils.is_url(v) and _utils.is_url(v.replace(' ', '+')) for v in vs)
         pstate = [mg.uncps(p) for p in q['prior']]
         if single:
             exp = vs[0].replace(' ', '+') if acc else (pstate[0] if pstate else None)
@@ -778,19 +839,21 @@ def eval_urls(ctx, drv, scale=1.0):
             for v in ([v.replace(' ', '+') for v in vs] if acc else pstate):
                 if v not in exp:
                     exp.append(v)
-        unstable = q['unstable']
-        case['unstable'] = unstable
         ok = (o['outcome'] == ('ok' if acc else 'url')) and o['state'] == exp
-        if acc and unstable and not single and o['outcome'] == 'url' and o['state'] == pstate:
-            ok = True      # rejecting such a list atomically would also be fine
+        stored = ([] if o.get('state') is None else [o['state']]) if single else (o.get('state') or [])
+        if ok and not all(_utils.is_url(u) and ' ' not in u for u in stored):
+            ok = False
         if not ok:
-            ctx.violation('URL field: valid URLs were not stored (spaces as +, no duplicates, in order) or an invalid URL '
-                          'did not raise URLError leaving the field unchanged', case,
-                          {'accept': acc, 'state': exp}, o, finding_matchers=MATCHERS)
+            ctx.violation('URL field: valid URLs were not stored (spaces as +, no duplicates, in order), an invalid URL (as '
+                          'given or as stored) did not raise URLError leaving the field unchanged, or the field holds an '
+                          'invalid URL', case, {'accept': acc, 'state': exp}, o, finding_matchers=MATCHERS)
             continue
+        # --- model and Lean specification (C14_urls: accepted iff all urlAccepts, state = keepFirst of the '+' forms)
         m = r['model']['single'] if single else r['model']
         mstate = mg.uncps(m['state']) if single else [mg.uncps(u) for u in m['state']]
-        if not unstable and ((m['err'] is None) != acc or mstate != exp):
+        sstate = [mg.uncps(u) for u in r['spec']['state']]
+        if (r['spec']['accept'] != acc or (m['err'] is None) != acc or mstate != exp
+                or (acc and (sstate[0] if single else sstate) != exp)):
             ctx.machinery_error('URL model outside spec although C14_urls is proved', case)
         elif (None if o['outcome'] == 'ok' else o['outcome']) != m['err'] or mstate != o['state']:
             ctx.corr_break('c14.urls', case, m, o)
@@ -1009,14 +1072,18 @@ def eval_getinfo(ctx, drv, scs):
 def run(ctx, drv):
     ctx.notes['rule'] = RULE
     ctx.notes['assumptions'] = [
-        'the two regular expressions are modelled by hand (re.match semantics, re.IGNORECASE folding for str patterns); '
-        'the model is tied to the real patterns only by this differential run',
+        'the two regular expressions are modelled by hand (re.match semantics, re.IGNORECASE | re.ASCII: ASCII-only classes and '
+        'literals); the model is tied to the real patterns only by this differential run',
         'int() is an oracle: the harness evaluates the real int(value) and gives the model its result',
         'utils.is_url is a predicate parameter evaluated by the real function',
-        'base64.b32decode / b16encode / str.upper / str.lower are modelled on ASCII input (all accepted hashes are ASCII '
-        'outside finding D14f)',
+        'base64.b32decode / b16encode / str.upper / str.lower are modelled on ASCII input (every accepted hash is ASCII: '
+        'C14_accept_iff_xt / _infohash)',
         'get_info: download outcomes are parameters of the model (connection error / unreadable / torrent with infohash); '
-        'timeouts never expire in the scenarios; Torrent.infohash of a served torrent is 40 lower-case hex digits',
+        'timeouts never expire in the scenarios; Torrent.infohash of a served torrent is 40 lower-case hex digits; adopted '
+        'metadata is represented by the infohash of the torrent it was taken from',
+        'when adopted metadata is forgotten: the model follows the code (stored string changes); the property is met by any rule '
+        'between "the denoted hash changes" and "every accepted assignment"; get_info() on a magnet that still holds metadata is '
+        'fixed by the model only (judged weakly against the property)',
         'values are str (non-str values go through str(value) first, as in the setters)',
     ]
     for c in mg.corpus_cases('C14'):          # past failures first
@@ -1026,7 +1093,7 @@ def run(ctx, drv):
     eval_history(ctx, drv, history_cases(ctx))
     eval_use(ctx, drv, use_cases(ctx))
     eval_xl(ctx, drv)
-    eval_urls(ctx, drv)
+    eval_urls(ctx, drv, url_cases(ctx))
     eval_getinfo(ctx, drv, getinfo_scenarios(ctx))
     eval_gih(ctx, drv, gih_scenarios(ctx))
     ctx.exhaustive = False
@@ -1039,6 +1106,7 @@ def search(ctx, drv):
     eval_hash(ctx, drv, hash_cases(ctx, scale=3.0))
     eval_history(ctx, drv, history_cases(ctx, scale=3.0))
     eval_use(ctx, drv, use_cases(ctx, scale=3.0))
+    eval_urls(ctx, drv, url_cases(ctx, scale=3.0))
     eval_getinfo(ctx, drv, getinfo_scenarios(ctx, scale=3.0))
     eval_gih(ctx, drv, gih_scenarios(ctx, scale=3.0))
 
@@ -1064,10 +1132,11 @@ def _eval_case(ctx, drv, c):
                                  'validate': c['validate'], 'udp_tracker': c.get('udp_tracker', False),
                                  'ws_slash': c.get('ws_slash', False),
                                  **({'hash_hex': c['hash_hex']} if 'hash_hex' in c else {})}])
+    elif k == 'urls':
+        eval_urls(ctx, drv, [(c['field'], c['prior'], list(c['vs']))])
     else:
-        # xl / urls cases carry Python values by repr only: re-run the whole (deterministic) stream
+        # xl cases carry Python values by repr only: re-run the whole (deterministic) stream
         eval_xl(ctx, drv)
-        eval_urls(ctx, drv)
 
 
 def replay(ctx, drv, rp):
